@@ -229,6 +229,17 @@ def fam_control(rnd: random.Random, ninputs: int = 12):
                 out += store(rnd.randrange(nslots))
             elif k < 0.8:
                 out += _ifelse(g, g.cond(), block(depth - 1), block(depth - 1) if rnd.random() < 0.7 else [])
+            elif k < 0.86 and depth >= 1:
+                # a term pinned by an equality and used again without being re-read from calldata (kept in memory, as a
+                # compiler keeps it on the stack): `x = cd_i; if (x == c) { if (x == cd_j) A else B } else C`
+                i, j = rnd.sample(range(g.nin), 2)
+                c = rnd.choice([0, 1, 5, 7, 255, 2**160 - 1])
+                g.consts.add(c)
+                pins.append((i, j, c))
+                x = ("mload", ("c", 0x300 + 32 * len(pins)))
+                out += compile_expr(("in", i)) + [("PUSH", x[1][1]), "MSTORE"]
+                inner = _ifelse(g, ("EQ", x, ("in", j)) if rnd.random() < 0.5 else ("EQ", ("in", j), x), store(rnd.randrange(nslots)), store(rnd.randrange(nslots)))
+                out += _ifelse(g, ("EQ", x, ("c", c)), inner, store(rnd.randrange(nslots)) if rnd.random() < 0.5 else [])
             elif k < 0.9:
                 if rnd.random() < 0.35:
                     # a conditional jump straight to an invalid destination: only the jumping inputs halt ...
@@ -255,11 +266,18 @@ def fam_control(rnd: random.Random, ninputs: int = 12):
                 out += [("PUSH", 1), "SWAP1", "SUB", ("PUSHL", top), "JUMP", ("LABEL", done), "POP"]
         return out
 
+    pins: list = []
     body = block(2)
     code = assemble(body + epilogue(nslots))
     names = [f"cd{i}" for i in range(g.nin)]
     prog = Prog(accounts={TARGET: code}, calldata=[Sym(nm, 256) for nm in names], name="control")
-    return prog, gen_inputs(g, rnd, names, ninputs)
+    inputs = gen_inputs(g, rnd, names, ninputs)
+    for i, j, c in pins:
+        for other in (c, (c + 1) % M256):
+            inp = dict(rnd.choice(inputs))
+            inp[f"cd{i}"], inp[f"cd{j}"] = c, other
+            inputs.append(inp)
+    return prog, inputs
 
 
 # ---------------------------------------------------------------------------------------------
